@@ -94,7 +94,7 @@ m = {
         "enable": "RUSTFLAGS='--cfg seed_verif --check-cfg cfg(seed_verif)' cargo build --offline "
                   "(CARGO_TARGET_DIR=/verif/work/target-hooked); the checks do this themselves",
         "baseline_off_cmd": "cd /repo && cargo test --workspace --no-fail-fast --offline",
-        "source_commits": ["bf47485"],
+        "source_commits": ["bf47485", "25a7ee0", "4a4f3be"],
         "add_only": True,
     },
     "engines": [
